@@ -2,13 +2,17 @@ import PyaModel.Core.Sexp
 import PyaModel.Spec.MiniSem
 import PyaModel.Spec.D01
 import PyaModel.Core.Composite
+import PyaModel.Core.CmpChain
 /-! Line protocol driver for C01.
 in : `run <prog> <args>`   prog = `(prog (<T>…) <stmt>…)`, args = `(args <o>…)` (s-expressions, Core/Sexp.lean)
         prog may carry `(rets <T>…)` (declared return types of the helper functions) after the parameter types
         stmt = `(asg x e)` | `(if t (<stmt>…) (<stmt>…))` | `(ret e)` | `(unp (x…) e)` | `(for x e (<stmt>…))` | `(aug x e)`
         expr = `(lit o)` | `(var x)` | `(tup e…)` | `(lst e…)` | `(sub e i)` | `(ite t a b)` | `(call f e…)` | `(add a b)`
         test = `(isnone x)` | `(notnone x)` | `(not t)`
-     `cls <skeleton tokens>`   (Spec/D01.lean)     `call <shared> <seqForm> <valSeq>`     `conv <isListOrTuple> <seqForm> <valSeq>`     `subl <isSub> <assignedInLoop>`     `comp <inLoop> <staleParent> <joinReset>`     `masq <asOverSeq> <constrainingSub>`
+     `cls <skeleton tokens>`   (Spec/D01.lean)     `call <shared> <seqForm> <valSeq>`     `conv <isListOrTuple> <seqForm> <valSeq>`     `subl <isSub> <assignedInLoop>`     `comp <inLoop> <staleParent> <joinReset>`     `masq <asOverSeq> <constrainingSub>`     `curt <unionRoot> <narrowedByTest>`     `unret <unannotated> <mayFallOff>`
+     `(chn (scope (x L…)…) (test t) (env (x L)…) (omega b…))`  (Core/CmpChain.lean)   t = `(not t)` | `(chain link…)`, link = `(o)` |
+        `(a x pred pos)`, pred = `(eq L)` | `(ord lt|le|gt|ge L)` | `(in L…)`, L = `i<int>` | `s<chars>` | `n`;
+        answer `P <scope> | N <scope> | H <value of the test>`
      `mem <o> <T>`     `creg <k1.k2…>` (the prefixes `_add_composite` records the composite under; `-` = the root)
 out: run: `I <path>=<T>;… | F <flags> | X <path>=<o>;… | O <outcome> | A <argsOk>`  (path = indices joined by `.`, root first)
      cls: the classes, comma separated, `-` if none;   mem: `1`/`0`
@@ -162,6 +166,61 @@ partial def pProg (ts : Toks) (acc : List Sk) : Option (List Sk) :=
     | some (s, r) => pProg r (s :: acc)
     | none => none
 
+/-! ### comparison chains -/
+def toLit (a : String) : Option Chain.Lit :=
+  if a == "n" then some .none
+  else if a.startsWith "i" then (a.drop 1).toString.toInt?.map Chain.Lit.int
+  else if a.startsWith "s" then some (.str (a.drop 1).toString)
+  else none
+
+def atomLit : Sexp → Option Chain.Lit
+  | .atom a => toLit a
+  | _ => none
+
+def showLit : Chain.Lit → String
+  | .int n => "i" ++ toString n
+  | .str z => "s" ++ z
+  | .none => "n"
+
+def toOrd : String → Option Chain.Ord
+  | "lt" => some .lt | "le" => some .le | "gt" => some .gt | "ge" => some .ge | _ => none
+
+def toPred : Sexp → Option Chain.Pred
+  | .node [.atom "eq", l] => (atomLit l).map Chain.Pred.eq
+  | .node [.atom "ord", .atom op, l] => do some (.ord (← toOrd op) (← atomLit l))
+  | .node (.atom "in" :: ls) => (ls.mapM atomLit).map Chain.Pred.isIn
+  | _ => none
+
+def toLink : Sexp → Option Chain.Link
+  | .node [.atom "o"] => some .opaque
+  | .node [.atom "a", .atom x, p, .atom pos] => do some (.narrowing (← x.toNat?) (← toPred p) (pos == "1"))
+  | _ => none
+
+partial def toCTest : Sexp → Option Chain.Test
+  | .node [.atom "not", t] => (toCTest t).map Chain.Test.tnot
+  | .node (.atom "chain" :: ls) => (ls.mapM toLink).map Chain.Test.chain
+  | _ => none
+
+def toScopeEntry : Sexp → Option (Nat × List Chain.Lit)
+  | .node (.atom x :: ls) => do some (← x.toNat?, ← ls.mapM atomLit)
+  | _ => none
+
+def showScope (sc : Chain.Scope) : String :=
+  ";".intercalate (sc.map fun e => toString e.1 ++ "=" ++ ",".intercalate (e.2.map showLit))
+
+def chnCase (sc t env om : List Sexp) : String :=
+  match sc.mapM toScopeEntry, t, env.mapM toScopeEntry with
+  | some sc, [t], some env =>
+    match toCTest t with
+    | some t =>
+      let ρ : Nat → Chain.Lit := fun x => match env.find? (·.1 == x) with | some (_, [l]) => l | _ => .none
+      let oms := om.map fun a => match a with | .atom "1" => true | _ => false
+      let ω : Nat → Bool := fun i => oms.getD i false
+      let (p, n) := t.branches sc
+      "P " ++ showScope p ++ " | N " ++ showScope n ++ " | H " ++ b2s (t.eval ρ ω)
+    | none => "bad-op"
+  | _, _, _ => "bad-op"
+
 def showCPath (p : CPath) : String := if p.isEmpty then "-" else ".".intercalate (p.map toString)
 
 def handle (line : String) : String :=
@@ -184,8 +243,14 @@ def handle (line : String) : String :=
     if D01_loopCarriedSubscript (a == "1") (l == "1") then "loopCarriedSubscript" else "-"
   | some [.atom "comp", .atom a, .atom b, .atom c] =>
     (match d01CompositeClasses (a == "1") (b == "1") (c == "1") with | [] => "-" | cs => ",".intercalate cs)
+  | some [.atom "curt", .atom a, .atom b] =>
+    if D01_compositeUnionRoot (a == "1") (b == "1") then "compositeUnionRoot" else "-"
+  | some [.atom "unret", .atom a, .atom b] =>
+    if D01_implicitNoneReturn (a == "1") (b == "1") then "implicitNoneReturn" else "-"
   | some [.atom "masq", .atom a, .atom b] =>
     if D01_matchAsNested (a == "1") (b == "1") then "matchAsNested" else "-"
+  | some [.node [.atom "chn", .node (.atom "scope" :: sc), .node (.atom "test" :: t), .node (.atom "env" :: env),
+      .node (.atom "omega" :: om)]] => chnCase sc t env om
   | some [.atom "mem", o, t] =>
     match o.toObj, t.toTy with
     | some o, some t => b2s (mem liveTable o t)
